@@ -771,8 +771,8 @@ func (e UnaryLogic) String() string {
 		return joinWithSpace(s)
 	}
 	operand := e.Operand.String()
-	if strings.HasPrefix(operand, "!") {
-		// "!!" would be read as one operator
+	if strings.HasPrefix(operand, "!") || strings.HasPrefix(operand, ":") {
+		// "!!" and "!:" would be read as one operator
 		return e.Operator.String() + " " + operand
 	}
 	return e.Operator.String() + operand
